@@ -57,7 +57,8 @@ def run(prog, rep):
         rep.unresolved("C17-R1", "analyse_formulae", "", "function not found")
         return
     rep.functions.add(an.qual)
-    s = terms.Engine(prog, inline=True, hooks=E.Hooks(["analysis::"])).summary(an)
+    import pipelines
+    s = pipelines.analysis_engine(prog).summary(an)
     pn = an.param_names()
     bn, formulae, ctxpath = ("param", pn[0]), ("param", pn[1]), ("param", pn[4])
     where = f"{an.file}:{an.line}"
